@@ -1,0 +1,18 @@
+//go:build verif
+
+package keystore
+
+// Contracts for govc (C18): the wallet path m/purpose'/coin'/account'/branch/index is derived by hardened children for
+// the first three levels, each from the previous level's key.
+
+//@ func deriveCoinTypeKey
+//@   assert-at call Child#1 purpose-is-a-hardened-child-of-the-master: arg0 == masterNode && arg1 == (scope.Purpose + 2147483648) % 4294967296
+//@   assert-at call Child#2 coin-is-a-hardened-child-of-the-purpose-key: arg0 == lastresult("Child#1") && arg1 == scope.Coin + 2147483648 && scope.Coin < 2147483648
+//@   ensures coin-key-returned: err == nil ==> result0 == lastresult("Child#2")
+
+//@ func deriveAccountKey
+//@   assert-at call Child account-is-a-hardened-child-of-the-coin-key: arg0 == coinTypeKey && arg1 == account + 2147483648 && account <= 2147483646
+
+//@ func checkBranchKeys
+//@   assert-at call Child#1 external-branch-is-normal-child-0: arg0 == acctKey && arg1 == 0
+//@   assert-at call Child#2 internal-branch-is-normal-child-1: arg0 == acctKey && arg1 == 1
